@@ -230,7 +230,7 @@ static void case_adj(const Problem& p) {
     sols.push_back(s);
     if (s.thrown) {
       sx::note("exception", tag + ": " + s.what);
-      if (on("C01") || on("C02") || on("C20"))
+      if (on("C01") || on("C02") || on("C20") || on("C10"))
         sx::check_true(p.defect > 0 && !p.subset_resolves, tag + " exception only for a non-resolving regularisation", p.describe() + " what=" + s.what);
       Qs.emplace_back(); Hs.emplace_back();
       continue;
@@ -238,7 +238,7 @@ static void case_adj(const Problem& p) {
     if ((on("C01") || on("C02") || on("C20")) && p.defect > 0 && !p.subset_resolves)
       sx::fail(tag + " non-resolving regularisation must not yield an adjustment", p.describe());
     if (p.defect > 0 && !p.subset_resolves) { Qs.emplace_back(); Hs.emplace_back(); continue; }
-    if (on("C01")) check_c01(p, b, s, tag);
+    if (on("C01") || on("C10")) check_c01(p, b, s, tag);
     if (on("C03")) check_c03(p, adj, tag);
     if (on("C02")) {
       std::vector<std::vector<Real>> Qm(p.n, std::vector<Real>(p.n)), Hm(p.m, std::vector<Real>(p.m));
